@@ -112,7 +112,8 @@ PROPS = {
         "lean": ["Seccomp.Proofs.C09"],
         "streams": [{"tool": "vprobe", "stream": "kernel", "profile": "load", "quick": 60, "thorough": 1500, "thorough_seeds": 2, "args": ["-profile", "load"]}],
         "trusted": KERNEL_TRUST,
-        "assumptions": ["kernel semantics of seccomp(2)/prctl(2) as modelled in Model/Kernel.lean (validated against the running kernel by the histories of this run, on this kernel only)"],
+        "assumptions": ["kernel semantics of seccomp(2)/prctl(2) as modelled in Model/Kernel.lean (validated against the running kernel by the histories of this run, on this kernel only): refusal order length → privilege → verifier; two faults (seccomp(2) → ENOSYS, prctl(PR_SET_NO_NEW_PRIVS) → EINVAL), both injected live by an outer filter",
+                        "flag bits 8/16/32 (user-notification listener) are outside the model: the modelled kernel knows TSYNC, LOG, SPEC_ALLOW (knownFlags = 7) and refuses the rest; no live history uses them"],
     },
     "C10": {
         "lean": ["Seccomp.Proofs.C10"],
@@ -126,7 +127,8 @@ PROPS = {
         "streams": [{"tool": "vprobe", "stream": "kernel", "profile": "nnp", "quick": 60, "thorough": 1500, "thorough_seeds": 2, "args": ["-profile", "nnp"]}],
         "trusted": KERNEL_TRUST,
         "assumptions": ["the Go scheduler is modelled as: the goroutine may continue on any live thread at a schedule point unless runtime.LockOSThread is in effect",
-                        "the harness forces migration attempts at the hook between prctl and seccomp (sleep + Gosched with busy Ps)"],
+                        "the harness forces migration attempts at the hook between prctl and seccomp (sleep + Gosched with busy Ps)",
+                        "a kernel that refuses PR_SET_NO_NEW_PRIVS is part of the model (World.nnpAvailable) and of the live histories (outer filter answering EINVAL, privileged children only: an unprivileged child could not install the outer filter without the bit)"],
     },
     "C15": {
         "lean": ["Seccomp.Proofs.C15"],
